@@ -4,6 +4,7 @@ CONSTANTS
   MaxProcs = 3
   Fault_CloseFds = FALSE
   Fault_KeepFds = FALSE
+  Fault_KeepFdsStdin = FALSE
   Fault_NoInherit = FALSE
   Fault_Rebind = FALSE
 INIT Init
